@@ -279,4 +279,6 @@ def run(ck, tier):
     from .c01 import shared_layout_findings as _slf
     ck.rule('R11', 'the write requests decode exactly the values their quantity field announces (shared with C01 R3): what execute() writes is what the frame carried')
     _slf(ck, cx, 'R11', ['WriteMultipleCoilsRequest', 'WriteMultipleRegistersRequest', 'WriteSingleCoilRequest', 'WriteSingleRegisterRequest', 'MaskWriteRegisterRequest', 'ReadWriteMultipleRegistersRequest'], 'a write then changes other cells than the addressed ones, or answers normally for a request the spec refuses', rules=('R3',))
+    from .. import options as _opt
+    ck.guard(_opt.rule_options_read_at_construction, ck, cx, 'R12', ('pymodbus.datastore.context', 'pymodbus.datastore.store'), ('ZeroMode',), 'contexts address their blocks one off from the configured mode: reads and writes land on the neighbouring cell')
     return cx.idx
